@@ -105,8 +105,24 @@ func famC05(g *Gen, o *Out, n int, thorough bool) {
 		if err != nil {
 			continue
 		}
-		for _, b := range bs {
+		for i := 0; i < len(bs); {
+			if api == "bs" && g.pick(3) == 0 {
+				// the blockstore's batch entry point; a batch may carry the same block twice
+				k := 1 + g.pick(3)
+				if i+k > len(bs) {
+					k = len(bs) - i
+				}
+				many := append([]Blk{}, bs[i:i+k]...)
+				if g.pick(2) == 0 {
+					many = append(many, many[g.pick(len(many))])
+				}
+				o.Line("many b="+blocksStr(many), "r="+st.do("many", cid.Undef, nil, many))
+				i += k
+				continue
+			}
+			b := bs[i]
 			o.Line(fmt.Sprintf("put c=%x d=%s", b.C.Bytes(), hexOr(b.D)), "r="+st.do("put", b.C, b.D, nil))
+			i++
 		}
 		o.Line("finalize", "r="+st.do("finalize", cid.Undef, nil, nil))
 		f := st.fileBytes()
